@@ -22,3 +22,171 @@ Proof.
   rewrite firstn_app, Nat.sub_diag, firstn_all. simpl. rewrite app_nil_r.
   rewrite skipn_app, Nat.sub_diag, skipn_all. reflexivity.
 Qed.
+
+(* ------------------------------------------------------------------ the model satisfies C09_ok *)
+Lemma list_eqb_refl {A} (eqb : A -> A -> bool) (l : list A) : (forall x, eqb x x = true) -> list_eqb eqb l l = true.
+Proof. intros H. induction l as [|x t IH]; simpl; auto. rewrite H, IH. reflexivity. Qed.
+
+Lemma aop_eqb_refl o : aop_eqb o o = true.
+Proof. unfold aop_eqb. rewrite !N.eqb_refl. reflexivity. Qed.
+
+Lemma rkind_eqb_refl k : rkind_eqb k k = true.
+Proof. destruct k; reflexivity. Qed.
+
+Lemma list_eqb_map2 {A X Y} (eqb : A -> A -> bool) (f : X -> A) (g : Y -> A) : forall (xs : list X) (ys : list Y),
+  length xs = length ys ->
+  (forall j x y, nth_error xs j = Some x -> nth_error ys j = Some y -> eqb (f x) (g y) = true) ->
+  list_eqb eqb (map f xs) (map g ys) = true.
+Proof.
+  induction xs as [|x xs IH]; intros [|y ys] Hlen H; simpl in *; try discriminate; auto.
+  rewrite (H 0%nat x y eq_refl eq_refl). simpl. apply IH; [lia|].
+  intros j x' y' Hx Hy. apply (H (S j)); auto.
+Qed.
+
+Lemma map_snd_combine {X Y} (xs : list X) (ys : list Y) : length xs = length ys -> map snd (combine xs ys) = ys.
+Proof. revert ys; induction xs as [|x xs IH]; intros [|y ys] H; simpl in *; try discriminate; auto. rewrite IH; auto. Qed.
+
+Lemma map_fst_combine {X Y} (xs : list X) (ys : list Y) : length xs = length ys -> map fst (combine xs ys) = xs.
+Proof. revert ys; induction xs as [|x xs IH]; intros [|y ys] H; simpl in *; try discriminate; auto. rewrite IH; auto. Qed.
+
+Lemma mem_nat_in x l : mem_nat x l = true <-> In x l.
+Proof.
+  unfold mem_nat. rewrite existsb_exists. split.
+  - intros (y & Hy & E). apply Nat.eqb_eq in E. subst. exact Hy.
+  - intros H. exists x. split; auto. apply Nat.eqb_refl.
+Qed.
+
+Lemma nodup_nat_of_NoDup l : NoDup l -> nodup_nat l = true.
+Proof.
+  induction 1 as [|x l Hn Hd IH]; simpl; auto.
+  rewrite IH, andb_true_r. apply negb_true_iff. destruct (mem_nat x l) eqn:E; auto.
+  apply mem_nat_in in E. contradiction.
+Qed.
+
+(* lookups in the snapshot = lookups in the slab *)
+Lemma find_occupied_from {V} (l : list (entry V)) : forall b id,
+  find (fun p => Nat.eqb (fst p) id) (occupied_from l b) =
+  if Nat.leb b id then match nth_error l (id - b) with Some (Occupied v) => Some (id, v) | _ => None end else None.
+Proof.
+  induction l as [|e t IH]; intros b id; simpl.
+  - destruct (Nat.leb b id); auto. destruct (id - b)%nat; reflexivity.
+  - destruct (Nat.leb_spec b id) as [Hle|Hgt].
+    + destruct (Nat.eq_dec id b) as [->|Hne].
+      * rewrite Nat.sub_diag. simpl. destruct e as [v|nx]; simpl.
+        -- rewrite Nat.eqb_refl. reflexivity.
+        -- rewrite IH. destruct (Nat.leb_spec (S b) b); [lia|reflexivity].
+      * replace (id - b)%nat with (S (id - S b)) by lia. simpl.
+        destruct e as [v|nx]; simpl.
+        -- destruct (Nat.eqb_spec b id); [lia|]. rewrite IH. destruct (Nat.leb_spec (S b) id); [reflexivity|lia].
+        -- rewrite IH. destruct (Nat.leb_spec (S b) id); [reflexivity|lia].
+    + destruct e as [v|nx]; simpl.
+      * destruct (Nat.eqb_spec b id); [lia|]. rewrite IH. destruct (Nat.leb_spec (S b) id); [lia|reflexivity].
+      * rewrite IH. destruct (Nat.leb_spec (S b) id); [lia|reflexivity].
+Qed.
+
+Lemma snap_kind_get (b : m_bstate) id e :
+  slab_get (b_reg b) id = Some e -> snap_kind (snap_of b) id = Some (r_kind e).
+Proof.
+  intros Hg. unfold snap_kind, snap_of, slab_iter.
+  assert (H : find (fun p : nat * rkind => Nat.eqb (fst p) id)
+                (map (fun p : nat * rentry aop nat => (fst p, r_kind (snd p))) (occupied_from (entries (b_reg b)) 0))
+              = option_map (fun p : nat * rentry aop nat => (fst p, r_kind (snd p)))
+                  (find (fun p => Nat.eqb (fst p) id) (occupied_from (entries (b_reg b)) 0))).
+  { generalize (occupied_from (entries (b_reg b)) 0). induction l as [|p t IH]; simpl; auto.
+    destruct (Nat.eqb (fst p) id); auto. }
+  rewrite H, find_occupied_from. simpl. rewrite Nat.sub_0_r.
+  apply get_occ in Hg. rewrite Hg. reflexivity.
+Qed.
+
+Lemma snap_of_in (b : m_bstate) id : In id (map fst (snap_of b)) -> exists e, slab_get (b_reg b) id = Some e.
+Proof.
+  unfold snap_of. rewrite map_map. simpl. intros H. apply in_map_iff in H as ([k v] & Hk & Hin).
+  simpl in Hk. subst k. apply slab_iter_in in Hin. eauto.
+Qed.
+
+Section ModelOk.
+Arguments t_dec_reqs : simpl never.
+Arguments t_enc_reqs : simpl never.
+Arguments t_dec_view : simpl never.
+Arguments t_enc_view : simpl never.
+Variable tb : rtables.
+Notation rstep_image := (step_image rcs N aop N aview nat N (rc_event tb) (rc_process tb) (rc_call tb) rc_drop (rc_view tb)
+                                   t_dec_event t_dec_out t_enc_reqs t_enc_view).
+Notation rtwin := (twin_run rcs N aop N aview nat N (rc_event tb) (rc_process tb) (rc_call tb) rc_drop (rc_view tb)
+                            t_dec_event t_dec_out t_enc_reqs t_enc_view).
+Notation rimage := (image rcs aop aview nat N t_enc_reqs t_enc_view).
+
+Lemma call_ok_of_image (b b' : m_bstate) (i : oin) r err tr :
+  rimage b b' (bin_of i) r err tr ->
+  C09_call_ok (snap_of b) (model_obs tb i (mkCall _ _ _ _ _ (bin_of i) r err tr b b')) = true.
+Proof.
+  intros Him. unfold C09_call_ok, model_obs, image_ok, ids_ok, view_ok. simpl.
+  rewrite (list_eqb_refl N.eqb _ N.eqb_refl), andb_true_r.
+  unfold BridgeProofs.image in Him. destruct err as [e|].
+  - subst r. reflexivity.
+  - destruct tr as [effs|e|v|]; simpl.
+    + destruct Him as (ids & Hlen & -> & Hreg & Hfresh). simpl.
+      assert (Hdec : t_dec_reqs (t_enc_reqs (combine ids (map e_op effs))) = Some (combine ids (map e_op effs), [])).
+      { rewrite <- (app_nil_r (t_enc_reqs _)). apply t_reqs_law. }
+      rewrite Hdec.
+      assert (Hl2 : length ids = length (map (e_op (op:=aop) (handle:=nat)) effs)) by (rewrite map_length; exact Hlen).
+      rewrite (map_snd_combine _ _ Hl2), (map_fst_combine _ _ Hl2), map_map. simpl.
+      rewrite (list_eqb_refl aop_eqb _ aop_eqb_refl). simpl.
+      assert (Hnd : NoDup ids).
+      { apply NoDup_nth_inj. intros j1 j2 id H1 H2.
+        assert (Hj1 : (j1 < length effs)%nat) by (rewrite <- Hlen; eapply nth_error_lt; eauto).
+        assert (Hj2 : (j2 < length effs)%nat) by (rewrite <- Hlen; eapply nth_error_lt; eauto).
+        destruct (nth_error effs j1) as [e1|] eqn:E1; [|apply nth_error_None in E1; lia].
+        destruct (nth_error effs j2) as [e2|] eqn:E2; [|apply nth_error_None in E2; lia].
+        pose proof (Hreg _ _ _ H1 E1) as G1. pose proof (Hreg _ _ _ H2 E2) as G2.
+        rewrite G1 in G2. inversion G2. lia. }
+      rewrite (nodup_nat_of_NoDup _ Hnd). simpl.
+      apply andb_true_intro. split.
+      * apply forallb_forall. intros id Hin.
+        destruct (Hfresh id Hin) as [Hnone|(data & Hd)].
+        -- apply orb_true_intro. left. apply negb_true_iff.
+           destruct (mem_nat id (map fst (snap_of b))) eqn:E; auto.
+           apply mem_nat_in in E. apply snap_of_in in E as (e0 & He0). congruence.
+        -- apply orb_true_intro. right. destruct i as [[|] ev|rid [v|]|]; simpl in Hd; try discriminate;
+             inversion Hd; subst; apply Nat.eqb_refl.
+      * rewrite map_map. apply list_eqb_map2; [exact Hlen|].
+        intros j id ef Hid Hef. rewrite (snap_kind_get b' id _ (Hreg _ _ _ Hid Hef)). simpl. apply rkind_eqb_refl.
+    + subst r. simpl. rewrite Z.eqb_refl. reflexivity.
+    + subst r. simpl.
+      assert (Hdec : t_dec_view (t_enc_view v) = Some (v, [])).
+      { rewrite <- (app_nil_r (t_enc_view v)). apply t_view_law. }
+      rewrite Hdec. rewrite (list_eqb_refl N.eqb _ N.eqb_refl). reflexivity.
+    + contradiction.
+Qed.
+
+Lemma model_ok_from : forall (ins : list oin) (b : m_bstate) (t : m_tstate),
+  R rcs aop nat b t ->
+  (forall c, In c (rtwin b t (map bin_of ins)) -> is_panic (c_out _ _ _ _ _ c) = false) ->
+  C09_ok_from (snap_of b) (map (fun p => model_obs tb (fst p) (snd p)) (combine ins (rtwin b t (map bin_of ins)))) = true.
+Proof.
+  induction ins as [|i rest IH]; intros b t HR Hnp; simpl; [reflexivity|].
+  simpl in Hnp.
+  destruct (translate rcs N aop N nat N t_dec_event t_dec_out b (bin_of i)) as [ti err] eqn:Et.
+  destruct (bridge_step rcs N aop N aview nat N (rc_event tb) (rc_process tb) (rc_call tb) rc_drop (rc_view tb)
+              t_dec_event t_dec_out t_enc_reqs t_enc_view b (bin_of i)) as [b' r] eqn:Eb.
+  destruct (typed_opt_step rcs N aop N aview nat (rc_event tb) (rc_process tb) (rc_call tb) rc_drop (rc_view tb) t ti)
+    as [t' tr] eqn:Ety.
+  assert (Hr : is_panic r = false) by (apply (Hnp (mkCall _ _ _ _ _ (bin_of i) r err tr b b')); left; reflexivity).
+  pose proof (rstep_image b t (bin_of i) b' r HR Eb Hr) as [HR' Him].
+  rewrite Et in HR', Him. simpl in HR', Him. rewrite Ety in HR', Him. simpl in HR', Him.
+  simpl. rewrite (call_ok_of_image b b' i r err tr Him). simpl.
+  apply IH; [exact HR'|]. intros c Hc. apply Hnp. right. exact Hc.
+Qed.
+
+End ModelOk.
+
+(* C09_ok holds of the model: whatever the replay tables (= whatever the core does) and whatever the
+   history, the observations the model produces satisfy the trace predicate. *)
+Theorem model_C09_ok : forall (tb : rtables) (ins : list oin),
+  (forall c, In c (m_twin_run tb (map bin_of ins)) -> is_panic (c_out _ _ _ _ _ c) = false) ->
+  C09_ok (map (fun p => model_obs tb (fst p) (snd p)) (combine ins (m_twin_run tb (map bin_of ins)))) = true.
+Proof.
+  intros tb ins Hnp. unfold C09_ok.
+  change (@nil (nat * rkind)) with (snap_of (bridge_init rcs aop nat rcs_init)).
+  apply model_ok_from; [apply R_init|exact Hnp].
+Qed.
